@@ -642,3 +642,30 @@ VK_TWIN(set_password, C_SET_PASSWORD)
 VK_TWIN(set_protocol, C_SET_PROTOCOL)
 VK_TWIN(set_search, C_SET_SEARCH)
 VK_TWIN(set_hash, C_SET_HASH)
+
+// ---------------------------------------------------------------- ada::url (field-based type) protocol / port steps (C19, C03, C04)
+// in = [type, opaque, host_state(0 null,1 empty,2 "h"), user, pass, has_port, port_lo, port_hi, schemelen] scheme[schemelen] value[...]
+// p0: 0 = set_protocol(value), 1 = set_port(value)
+// out = [rv, type, has_port, port_lo, port_hi, schemelen, has_host, host_type] scheme...
+VK(url_fields_step) {
+  UNUSED;
+  ada::url v;
+  v.type = ada::scheme::type(in[0]);
+  v.has_opaque_path = in[1] != 0;
+  if (in[2] == 1) v.host = ""; else if (in[2] == 2) v.host = "h";
+  if (in[3]) v.username = "u";
+  if (in[4]) v.password = "p";
+  if (in[5]) v.port = uint16_t(in[6] | (in[7] << 8));
+  uint64_t sl = in[8];
+  if (!v.is_special()) v.non_special_scheme = std::string(reinterpret_cast<const char*>(in + 9), sl);
+  v.path = v.has_opaque_path ? "x" : "/";
+  v.is_valid = true;
+  std::string_view val(reinterpret_cast<const char*>(in + 9 + sl), n - 9 - sl);
+  bool rv = p0 ? v.set_port(val) : v.set_protocol(val);
+  std::string proto = v.get_protocol();
+  if (!proto.empty()) proto.pop_back();
+  out[0] = rv; out[1] = uint8_t(v.type); out[2] = v.port.has_value(); out[3] = uint8_t(v.port.value_or(0)); out[4] = uint8_t(v.port.value_or(0) >> 8);
+  out[5] = uint8_t(proto.size()); out[6] = v.host.has_value(); out[7] = uint8_t(v.host_type);
+  vk_put(out + 8, cap - 8, proto);
+  return rv;
+}
